@@ -111,7 +111,8 @@ Inductive gcase :=
 | CBuild (e : nexpr) (obs : result node)            (* build with the constructors *)
 | CInfer (e : nexpr) (obs : result (node * bool))   (* build, infer_types(): graph after, raised? *)
 | CInfer2 (e : nexpr) (obs : result (node * bool))  (* ... twice *)
-| CCheck (e : nexpr) (obs : result bool).           (* build, _check_types(): True / raised *)
+| CCheck (e : nexpr) (obs : result bool)            (* build, _check_types(): True / raised *)
+| CFromList (es : list nexpr) (obs : result node).  (* NIRGraph.from_list(nodes...) *)
 
 Definition gcheck (c : gcase) : bool :=
   match c with
@@ -125,4 +126,6 @@ Definition gcheck (c : gcase) : bool :=
          let '(g2, oc) := infer_types g1 in Ok (g2, raised oc)) obs
   | CCheck e obs =>
       res_agree Bool.eqb (do g <- eval e; check_types g) obs
+  | CFromList es obs =>
+      res_agree node_agree (do ns <- mapM eval es; from_list ns) obs
   end.
